@@ -368,6 +368,7 @@ impl State {
         let input_len = self.input.len();
         let heap_len = self.heap.len();
         let data_len = self.data_stack.len();
+        let rlog_len = self.reverse_log.as_ref().map(|log| log.len());
         self.context_open(mode)?;
         let own = self.ctx.clone();
         self.intern_source(s, path)?;
@@ -388,6 +389,10 @@ impl State {
             self.dict.truncate(own.di_len);
             self.heap.truncate(heap_len);
             self.data_stack.truncate(data_len);
+            if let (Some(log), Some(len)) = (self.reverse_log.as_mut(), rlog_len) {
+                // what its meta blocks recorded refers to state that is gone
+                log.truncate(len);
+            }
             return Err(e);
         }
         self.context_close()
